@@ -38,6 +38,10 @@ class Unsupported(PathAbort):
         super().__init__("unsupported: " + what)
 
 
+class EngineError(BaseException):
+    """misuse of the engine itself (e.g. a proxy of a finished path met in a concrete run): never a library failure"""
+
+
 class ReplayDiverged(BaseException):
     """a concrete replay asked for an input the model has no value for (BaseException: library code / guard() must not swallow it)"""
 
@@ -1111,7 +1115,7 @@ class Ctx:
     # -- decisions ----------------------------------------------------------------------------
     def branch(self, cond):
         if self.mode == "conc":
-            raise RuntimeError("symbolic branch in concrete mode")
+            raise EngineError("symbolic branch in concrete mode")
         cond = z3.simplify(cond)
         if z3.is_true(cond):
             return True
@@ -1150,7 +1154,7 @@ class Ctx:
 
     def concretize(self, expr):
         if self.mode == "conc":
-            raise RuntimeError("symbolic concretize in concrete mode")
+            raise EngineError("symbolic concretize in concrete mode")
         expr = z3.simplify(expr)
         if z3.is_int_value(expr):
             return expr.as_long()
@@ -1233,6 +1237,62 @@ class Ctx:
     def note(self, s):
         self.notes.append(s)
 
+    def box_volume(self, reals):
+        """Lebesgue measure of the set of values the given uniform variates (fresh symbolic reals) can take on this path, when every
+        constraint of the path condition that mentions one of them is linear and mentions no other of them (a box): product over the
+        variates of sup - inf, each found by the solver (z3 Optimize).  None if the region is not such a box or a bound is not found."""
+        ids = {}
+        for r in reals:
+            if not (isinstance(r, SymReal) and r.d is None and z3.is_const(r.n) and not z3.is_rational_value(r.n)):
+                return None
+            ids[r.n.get_id()] = r.n
+
+        def mentioned(e, acc, seen):
+            st = [e]
+            while st:
+                x = st.pop()
+                if x.get_id() in seen:
+                    continue
+                seen.add(x.get_id())
+                if x.get_id() in ids:
+                    acc.add(x.get_id())
+                st.extend(x.children())
+            return acc
+
+        per = {i: [] for i in ids}
+        for c in self.pc:
+            hit = mentioned(c, set(), set())
+            if len(hit) > 1:
+                return None
+            for i in hit:
+                per[i].append(c)
+        vol = Fraction(1)
+        t = time.time()
+        for i, v in ids.items():
+            ends = []
+            for sense in ("min", "max"):
+                opt = z3.Optimize()
+                opt.set("timeout", 10000)
+                opt.add(*per[i])
+                h = opt.minimize(v) if sense == "min" else opt.maximize(v)
+                if opt.check() != z3.sat:
+                    return None
+                tri = opt.lower_values(h) if sense == "min" else opt.upper_values(h)
+                def q(x):
+                    if z3.is_int_value(x):
+                        return Fraction(x.as_long())
+                    if z3.is_rational_value(x):
+                        return Fraction(x.numerator_as_long(), x.denominator_as_long())
+                    return None
+
+                if q(tri[0]) != 0 or q(tri[1]) is None:  # unbounded or not a rational
+                    return None
+                ends.append(q(tri[1]))
+                self.solver_calls += 1
+            vol *= ends[1] - ends[0]
+        self.solver_time += time.time() - t
+        return vol
+
     def contribute(self, tag, payload):
         """record this path's share of a cross-path quantity (e.g. outcome + probability of the path's resolution of the discrete
         draws); the harness' finalize(cfg, tag, records, complete) decides the obligation once every path of the configuration is in"""
@@ -1240,7 +1300,7 @@ class Ctx:
 
     # -- obligations --------------------------------------------------------------------------
     def model_values(self, m):
-        vals = {}
+        vals = dict(getattr(self, "extra_values", {}))  # solver-derived facts a harness wants to carry into the concrete replay
         for name, v in self.vars.items():
             x = m.eval(v, model_completion=True)
             if z3.is_int_value(x):
